@@ -332,7 +332,7 @@ def deep_trees(R):
                 R.count('deep_tree_cases')
                 if st == 'exc':
                     R.exc(got)
-                    R.violation('recursion-limit-nested-forks-parse' if isinstance(got, RecursionError) else f'deep-tree-{cname}-raises-{type(got).__name__}',
+                    R.violation('recursion-limit-nested-forks-parse' if isinstance(got, RecursionError) and depth >= 600 else f'deep-tree-{depth}-{cname}-raises-{type(got).__name__}',
                                 f'{cname} raised {type(got).__name__} on a spec-valid dictionary nesting {depth} forks', W)
                     continue
                 R.check(got == {k: int(v[0], 2) for k, v in m.items()}, f'deep-tree-differs-{cname}', f'{cname}: a dictionary nesting {depth} forks is parsed to other pairs', W)
